@@ -53,6 +53,21 @@ pub fn raw_text(families: &'static [u8]) -> impl Strategy<Value = RawText> {
         })
 }
 
+impl RawText {
+    /// Decoding from fuzzer bytes (E3 target `raw_struct`): the same value space as `raw_text`.
+    pub fn from_bytes(b: &mut gen::Bytes, families: &[u8]) -> RawText {
+        let family = families[b.u8() as usize % families.len()];
+        let decor = b.choices(24);
+        let ne = b.len(3);
+        let edits = (0..ne).map(|_| (b.u8() % 6, b.u16_full(), b.u16_full())).collect();
+        let soup = b.choices(40);
+        let layout = b.choices(24);
+        let layout2 = b.choices(24);
+        let grammar = RawGrammar::from_bytes(b);
+        RawText { family, grammar, decor, edits, soup, layout, layout2 }
+    }
+}
+
 pub const BAD_ATOMS: [&str; 16] =
     ["$", "/", "#", "é", "$start", "$_", "@", "$enum", "€x", "\"", "#[a)]", "#[(])", "$9", "[", "!", "$struct"];
 
@@ -305,6 +320,7 @@ pub fn c08_run(ctx: &Ctx) -> i32 {
     rep.absorb("E1-proptest", out);
     if ctx.tier == Tier::Thorough {
         crate::fuzzrun::run_into(ctx, &mut rep, crate::fuzzrun::Campaign { target: "text_frontend", prop: "C08", runs_total: (ctx.scale * 2_000_000.0) as u64, max_len: 2048, seeds: crate::fuzzrun::text_seeds(), dict: true });
+        crate::fuzzrun::run_into(ctx, &mut rep, crate::fuzzrun::raw_campaign("C08", (ctx.scale * 100_000.0) as u64));
     }
     quota_check(&mut rep, &["ref:lexically-valid", "ref:lex-error:malformed attribute", "ref:lex-error:reserved word after dollar", "ref:lex-error:unknown character", "text:has-multibyte"]);
     rep.finish()
@@ -456,6 +472,7 @@ pub fn c09_run(ctx: &Ctx) -> i32 {
     rep.absorb("E1-proptest", out);
     if ctx.tier == Tier::Thorough {
         crate::fuzzrun::run_into(ctx, &mut rep, crate::fuzzrun::Campaign { target: "text_frontend", prop: "C09", runs_total: (ctx.scale * 2_000_000.0) as u64, max_len: 2048, seeds: crate::fuzzrun::text_seeds(), dict: true });
+        crate::fuzzrun::run_into(ctx, &mut rep, crate::fuzzrun::raw_campaign("C09", (ctx.scale * 100_000.0) as u64));
     }
     quota_check(&mut rep, &["ref:accept", "ref:bad-token", "ref:unexpected-eof"]);
     rep.finish()
@@ -901,6 +918,7 @@ pub fn c10_run(ctx: &Ctx) -> i32 {
     rep.absorb("E1-proptest", out);
     if ctx.tier == Tier::Thorough {
         crate::fuzzrun::run_into(ctx, &mut rep, crate::fuzzrun::Campaign { target: "text_frontend", prop: "C10", runs_total: (ctx.scale * 2_000_000.0) as u64, max_len: 2048, seeds: crate::fuzzrun::text_seeds(), dict: true });
+        crate::fuzzrun::run_into(ctx, &mut rep, crate::fuzzrun::raw_campaign("C10", (ctx.scale * 100_000.0) as u64));
     }
     quota_check(
         &mut rep,
@@ -1114,6 +1132,7 @@ pub fn c16_run(ctx: &Ctx) -> i32 {
     rep.absorb("E1-proptest", out);
     if ctx.tier == Tier::Thorough {
         crate::fuzzrun::run_into(ctx, &mut rep, crate::fuzzrun::Campaign { target: "text_frontend", prop: "C16", runs_total: (ctx.scale * 2_000_000.0) as u64, max_len: 2048, seeds: crate::fuzzrun::text_seeds(), dict: true });
+        crate::fuzzrun::run_into(ctx, &mut rep, crate::fuzzrun::raw_campaign("C16", (ctx.scale * 100_000.0) as u64));
     }
     quota_check(&mut rep, &["outcome:ok", "outcome:lex-error", "outcome:parse-error", "outcome:validation-error", "outcome:table-conflict"]);
     rep.finish()
